@@ -458,10 +458,10 @@ Definition reachable (g : list cnode) (start : nat) : list nat :=
 Definition tok_return (c : cnode) : token :=
   mktok (TSymbol «"return"») (rrange (node_raw (cn c))) (rfile (node_raw (cn c))).
 
-(* the replacement of an additional return by `jal x0, __return__` *)
+(* the replacement of an additional return by `jal x0, <return>` (fix: a name no source file can contain) *)
 Definition rewritten_return (found exit_ : cnode) : pnode :=
   let info := tok_return found in
-  PJumpLink (mkw IJal info) (mkw 0%N info) (mkw «"__return__"» info) (node_raw (cn exit_)).
+  PJumpLink (mkw IJal info) (mkw 0%N info) (mkw «"<return>"» info) (node_raw (cn exit_)).
 
 (* `pick` is the index of the return the traversal meets first (hash-order dependent in the
    code); it must be one of the candidates, otherwise the first candidate is used *)
